@@ -1,23 +1,26 @@
 #!/bin/sh
 # try_patch.sh <dir-with-patch.diff-and-demo_test.go> <property-id> [tier]
-# Confirms a seeded change: (1) demo passes on the clean tree, (2) patch applies, builds, the
-# existing suite passes, (3) demo fails with the patch, (4) runs the property's check, then
-# reverts /repo. Prints one summary line: SEEDED <dir> suite=<ok|FAIL> demo=<fails|passes> check=<exit>
-D="$1"; ID="$2"; TIER="${3:-quick}"
+# Confirms a seeded change in its own scratch worktree of /repo (never in /repo itself):
+# (1) demo passes on the clean tree, (2) patch applies, builds, the existing suite passes,
+# (3) demo fails with the patch, (4) the property's check is run against the patched worktree.
+# Prints one line: SEEDED <dir> prop=.. clean_demo=[..] suite=[..] demo_with_patch=[..] check_exit=N rule=..
+D=$(cd "$1" && pwd); ID="$2"; TIER="${3:-quick}"
 export GOFLAGS=-mod=mod GOPROXY=off GOSUMDB=off GOTOOLCHAIN=local
 VERIF=$(cd "$(dirname "$0")/.." && pwd)
-cd /repo || exit 2
-[ -n "$(git status --porcelain)" ] && { echo "/repo not clean"; exit 2; }
-cleanup() { git -C /repo checkout -q -- . ; rm -f /repo/zz_demo_test.go; }
+WT=$(mktemp -d /tmp/goatsim-wt.XXXXXX); OUT=$(mktemp -d /tmp/goatsim-out.XXXXXX)
+cleanup() { git -C /repo worktree remove --force "$WT" >/dev/null 2>&1; rm -rf "$WT" "$OUT"; }
 trap cleanup EXIT
-cp "$D/demo_test.go" /repo/zz_demo_test.go
+rmdir "$WT"; git -C /repo worktree add -q --detach "$WT" HEAD || exit 2
+cd "$WT" || exit 2
+cp "$D/demo_test.go" zz_demo_test.go
 clean_demo=$(go test -vet=off -count=1 -run 'TestDemo' . 2>&1 | tail -1)
 git apply "$D/patch.diff" || { echo "SEEDED $D patch does not apply"; exit 2; }
 build=$(go build ./... 2>&1 | head -3)
 demo=$(go test -vet=off -count=1 -run 'TestDemo' . 2>&1 | tail -1)
-rm -f /repo/zz_demo_test.go
+rm -f zz_demo_test.go
 suite=$(go test -vet=off -count=1 ./... 2>&1 | grep -v "no test files" | tail -1)
-out=$("$VERIF/check.sh" "$ID" "$TIER" 2>&1); rc=$?
-echo "$out" | grep -A1 "^VIOLATION\|INFRASTRUCTURE" | head -6
+mkdir -p "$OUT/evidence"; cp "$VERIF/known_findings.json" "$OUT/" 2>/dev/null
+out=$(VERIF_REPO="$WT" VERIF_BIN="$OUT/goatsim" VERIF_OUT="$OUT" "$VERIF/check.sh" "$ID" "$TIER" 2>&1); rc=$?
+rule=$(echo "$out" | grep -m1 "^  rule=" | cut -c1-300)
 echo "$out" | tail -1
-echo "SEEDED $D prop=$ID clean_demo=[$clean_demo] build=[$build] suite=[$suite] demo_with_patch=[$demo] check_exit=$rc"
+echo "SEEDED $D prop=$ID clean_demo=[$clean_demo] build=[$build] suite=[$suite] demo_with_patch=[$demo] check_exit=$rc $rule"
